@@ -148,14 +148,17 @@ func VF_C08_PipeCopy() {
 		return
 	}
 	prev := int64(-1)
+	cum := int64(0)
 	for i, o := range acks {
+		cum += int64(copiedAtTick[i])
 		if !waitFull {
 			vfAssert(o == 0, "before the full sync is done the acknowledged offset must be 0")
 			continue
 		}
 		want := start + int64(copiedAtTick[i])
 		// known finding: from the second acknowledgement on the cumulative byte count is added again
-		vfAssertK(o == want, "acknowledged offset is not start offset + bytes received so far", "C08-ack-cumulative", i >= 1)
+		// (guard: exactly the value the known bookkeeping produces — the cumulative counts summed per tick)
+		vfAssertK(o == want, "acknowledged offset is not start offset + bytes received so far", "C08-ack-cumulative", vfAnd(i >= 1, o == start+cum))
 		vfAssert(o >= prev, "acknowledged offsets decrease")
 		prev = o
 	}
@@ -230,7 +233,8 @@ func VF_C08_Reconnect() {
 		vfAssert(parts[4] == "run-1", "PSYNC after a reconnect does not name the source's run id")
 		// known finding: the remembered offset is only advanced by acknowledgement ticks
 		if vfParam("c08", 0) == 1 {
-			vfAssertK(o == start+int64(len(cmd1))+1, "PSYNC after a reconnect does not ask for start offset + bytes received + 1", "C08-reconnect-offset", true)
+			// (guard: exactly the stale value — no tick happened in this run, so the remembered offset is still the start offset)
+			vfAssertK(o == start+int64(len(cmd1))+1, "PSYNC after a reconnect does not ask for start offset + bytes received + 1", "C08-reconnect-offset", o == start+1)
 		}
 	}
 	vfAssertTwin(len(got) == 0, "twin")
